@@ -226,6 +226,8 @@ type treeRef struct {
 	Space string `json:"space"`
 	Index int    `json:"index"`
 	Show  string `json:"expr,omitempty"`
+	// Jumps (C13): the tree is judged as an instruction-pointer write through the code model
+	Jumps bool `json:"jumps,omitempty"`
 }
 
 func (t treeRef) expr() expr.Expr { return spaces[t.Space].get()[t.Index] }
